@@ -482,6 +482,25 @@ class OFolder(Folder):
                 return [x for _, _, x in keyed]
             pick = (max if f is max else min)(keyed, key=lambda t: t[0])
             return pick[2]
+        if getattr(f, "__name__", "") == "sort" and isinstance(getattr(f, "__self__", None), list):
+            lst = f.__self__
+            keyf = kw.get("key")
+            if keyf is None:
+                if any(isinstance(x, Obj) or (isinstance(x, tuple) and any(isinstance(y, Obj) for y in x)) for x in lst):
+                    # ordering falls through to comparing model objects: the modelled code would raise unless they define __lt__
+                    firsts = [x[0] if isinstance(x, tuple) and x else x for x in lst]
+                    if all(not isinstance(y, Obj) for y in firsts) and len(set(map(repr, firsts))) == len(firsts):
+                        lst.sort(key=lambda x: x[0], reverse=bool(kw.get("reverse")))
+                        return None
+                    raise FoldedRaise("TypeError", "'<' not supported between instances of model objects")
+                lst.sort(reverse=bool(kw.get("reverse")))
+                return None
+            keyed = [(self.v_call(keyf, [x], {}, node, env), i, x) for i, x in enumerate(lst)]
+            keyed.sort(key=lambda t: (t[0], t[1]))
+            if kw.get("reverse"):
+                keyed.reverse()
+            lst[:] = [x for _, _, x in keyed]
+            return None
         anyobj = any(isinstance(a, Obj) for a in args)
         if f is len and len(args) == 1 and isinstance(args[0], Obj):
             r = self.dunder(args[0], "__len__")
